@@ -351,14 +351,24 @@ def through_the_agent(ctx):
                 late = "accepted"
             except BaseException as e:
                 late = type(e).__name__
+            # the other kind of work the closed task handler is given: a configuration update (a tracepoint registered in code
+            # after shutdown) - refused visibly too, not accepted and then never delivered
+            try:
+                d.register_tracepoint("late.py", 10, {}, [], [])
+                late_cfg = "accepted"
+            except BaseException as e:
+                late_cfg = type(e).__name__
             time.sleep(0.2)
-            j = dict(handed_over=n, sent_when_shutdown_returned=at_return, hand_over_after_shutdown=late)
+            j = dict(handed_over=n, sent_when_shutdown_returned=at_return, hand_over_after_shutdown=late, registration_after_shutdown=late_cfg)
             ctx.case(j, nontrivial=True, bucket="through-the-agent")
             if at_return != list(range(n)):
                 ctx.fail("Deep.shutdown() returned with %r of %d accepted snapshots sent (the push service's tasks are not the ones "
                          "shutdown waits for)" % (at_return, n), j, kind="schedule", tag="agent-shutdown-does-not-drain")
             if late == "accepted":
                 ctx.fail("a snapshot handed to Deep.push after shutdown was accepted silently", j, kind="schedule", tag="agent-accepts-after-shutdown")
+            if late_cfg == "accepted":
+                ctx.fail("a tracepoint registered after shutdown was accepted: its update is work submitted after closing, and it was "
+                         "dropped silently (the handler never receives it)", j, kind="schedule", tag="agent-drops-update-after-shutdown")
     finally:
         ps.SnapshotServiceStub, push_mod.convert_snapshot, api.load_plugins = saved
         sys.settrace(old_sys)
